@@ -101,6 +101,10 @@ def run(res, tier, seed):
         res.add_lemma(a, "NoError", "band offsets/lengths tile the range for all 1 <= parts <= size < 2^32")
         if a["result"] != "NoError":
             raise vlib.ToolError("lemma BandLemmas!%s: %s" % (inv, a["result"]))
+    t = vlib.run_tlapm("BandProof")
+    res.add_lemma(t, "Proved", "TLAPS: the band arithmetic tiles [0, size) for ALL naturals 1 <= parts <= size (not only u32)")
+    if t["result"] != "Proved":
+        raise vlib.ToolError("TLAPS proof BandProof: %s" % t["result"])
     cases = gen(tier, rng)
     for i, c in enumerate(cases):
         c["id"] = i
